@@ -25,7 +25,8 @@ Definition ckey_eqb (a b : ckey) : bool :=
   String.eqb (k_work a) (k_work b) && (k_prio a =? k_prio b) && smap_eqb (k_param a) (k_param b)
   && smap_eqb (k_meta a) (k_meta b).
 
-Record ptask := mkPT { pt_key : ckey; pt_muts : list mutator; pt_ins : nat; pt_task : task }.
+(* pt_occ: the un-mutated occurrence this task was made from (ghost: not observable, used by the stream theorems) *)
+Record ptask := mkPT { pt_key : ckey; pt_muts : list mutator; pt_ins : nat; pt_task : task; pt_occ : gtime }.
 
 Section WithSchedule.
   (* the schedule: next occurrence of entry object [eid] after instant t (in the schedule's zone) *)
@@ -91,7 +92,8 @@ Section WithSchedule.
   (* one wrapped task: mutators applied, ToTask(uuid, now). ids are uuids: projected to "" *)
   Definition wrap (key : ckey) (muts : list mutator) (ins : nat) (now : gtime) (p : uparam) : ptask :=
     let off := match rand_of muts with Some r => r_min r | None => 0 end in
-    mkPT key muts ins (to_task (apply_mutators muts now off p) "" now).
+    mkPT key muts ins (to_task (apply_mutators muts now off p) "" now)
+         (match u_sched p with Some t => t | None => tzero end).
 
   Definition reset_timer (c : cron) (now : gtime) : timer :=
     let t := tm_stop_drain (cr_timer c) in
